@@ -639,7 +639,7 @@ def run(ctx):
     lake_build(ctx, mods, {"TomlVerif.Gen.CheckMacro": "tie: the arms of toml_internal! in /repo, in order, are the arms the model implements",
                      "TomlVerif.Props.C19": "property theorems"})
     audit(ctx, "TomlVerif.Props.C19", "TomlVerif/Props/C19.lean")
-    extra_props(ctx, ["C19Full"])
+    extra_props(ctx, ["C19Full", "C19Text"])
     if ctx.tier == "thorough":
         leanchecker(ctx, "TomlVerif.Props.C19")
     rng = ctx.rng
